@@ -2111,3 +2111,117 @@ Proof.
     apply in_tptrs in Hp. destruct Hp as (t & Ht & Hp). exists t. split; [exact Ht|].
     apply in_linked_ids. eauto.
 Qed.
+
+(** * 14a. Replayed tests (values scaled down: "big" = 8 bytes, threshold 4) *)
+Module BlobEx.
+  Definition kbig : key := [98;105;103].
+  Definition kanother : key := [97;110;111].
+  Definition ksmol : key := [115;109;111;108].
+  Definition ka : key := [97].  Definition kb : key := [98].  Definition kc : key := [99].
+  Definition big : list N := [1;2;3;4;5;6;7;8].
+  Definition big2 : list N := [9;9;9;9;9;9;9].
+  Definition V k s v := mkE k s Value v.
+  Definition T k s := mkE k s Tomb [].
+  Definition Wt k s := mkE k s WeakTomb [].
+  (** one output table with the given id *)
+  Definition one (id : N) := fun l : list entry => if is_nil l then [] else [(id, l)].
+  Definition G l b d := mkG l b d.
+
+  (** tests/blob_major_compact_gc_stats.rs: blob_tree_major_compact_gc_stats *)
+  Definition m1 := blob_flush 4 1000 0 0 (one 0) [V kbig 0 big; V ksmol 0 [1;2]] bv_empty.
+  Definition m2 := blob_flush 4 1000 0 (snd m1) (one 1) [V kbig 1 big2] (fst m1).
+  Definition m3 := blob_merge_standard 1000 true no_filter [0;1] (one 2) (fst m2).
+  Example ex_major_compact_gc_stats :
+    length (b_tables (fst m1)) = 1%nat /\ length (b_blobs (fst m1)) = 1%nat /\
+    length (b_tables m3) = 1%nat /\ length (b_blobs m3) = 2%nat /\
+    b_gc m3 = [(0, G 1 8 8)] /\ stale_bytes (b_gc m3) = 8 /\
+    check_binv (fst m1) = true /\ check_binv (fst m2) = true /\ check_binv m3 = true.
+  Proof. vm_compute. repeat split; reflexivity. Qed.
+
+  (** blob_tree_major_compact_gc_stats_2: five versions of one key *)
+  Definition n1 := blob_flush 4 1000 0 0 (one 0)
+      [V kbig 4 big; V kbig 3 big; V kbig 2 big; V kbig 1 big; V kbig 0 big] bv_empty.
+  Definition n2 := blob_merge_standard 1000 true no_filter [0] (one 1) (fst n1).
+  Example ex_major_compact_gc_stats_2 :
+    length (b_blobs (fst n1)) = 1%nat /\ length (b_blobs n2) = 1%nat /\
+    b_gc n2 = [(0, G 4 32 32)] /\ check_binv n2 = true.
+  Proof. vm_compute. repeat split; reflexivity. Qed.
+
+  (** blob_tree_major_compact_gc_stats_tombstone (the second flush takes blob id 1 and
+      creates no file; LinkedFile of the tables before and after) *)
+  Definition t1 := blob_flush 4 1000 0 0 (one 0) [V kanother 0 big; V kbig 0 big; V ksmol 0 [1]] bv_empty.
+  Definition t2 := blob_flush 4 1000 0 (snd t1) (one 1) [T kbig 1] (fst t1).
+  Definition t3 := blob_merge_standard 1000 true no_filter [0;1] (one 2) (fst t2).
+  Example ex_major_compact_gc_stats_tombstone :
+    snd t2 = 2 /\ length (b_blobs (fst t2)) = 1%nat /\
+    map (fun t => linked_of (snd t)) (b_tables (fst t2)) = [[]; [(0, G 2 16 16)]] /\
+    b_gc t3 = [(0, G 1 8 8)] /\
+    map (fun t => linked_of (snd t)) (b_tables t3) = [[(0, G 1 8 8)]] /\
+    length (b_blobs t3) = 1%nat /\ check_binv t3 = true.
+  Proof. vm_compute. repeat split; reflexivity. Qed.
+
+  (** tests/blob_major_compact_drop_dead_files.rs *)
+  Definition c1 := blob_flush 4 1000 0 0 (one 0) [V kbig 0 big] bv_empty.
+  Definition c2 := blob_flush 4 1000 0 (snd c1) (one 1) [V kbig 1 big] (fst c1).
+  Definition c3 := blob_flush 4 1000 0 (snd c2) (one 2) [V kbig 2 big] (fst c2).
+  Definition c4 := blob_flush 4 1000 0 (snd c3) (one 3) [V kbig 3 big] (fst c3).
+  Definition c5 := blob_flush 4 1000 0 (snd c4) (one 4) [V kbig 4 big2] (fst c4).
+  Definition c6 := blob_merge_standard 1000 true no_filter [0;1;2;3;4] (one 5) (fst c5).
+  Definition c7 := blob_merge_standard 1000 true no_filter [5] (one 6) c6.
+  Example ex_major_compact_drop_dead_files :
+    b_gc (fst c5) = [] /\ length (b_blobs (fst c5)) = 5%nat /\
+    length (b_tables c6) = 1%nat /\ length (b_blobs c6) = 5%nat /\
+    b_gc c6 = [(0, G 1 8 8); (1, G 1 8 8); (2, G 1 8 8); (3, G 1 8 8)] /\
+    length (b_tables c7) = 1%nat /\ length (b_blobs c7) = 1%nat /\ b_gc c7 = [] /\
+    check_binv c6 = true /\ check_binv c7 = true /\
+    map (resolve_or_inline c7) (concat (map snd (b_tables c7))) = [V kbig 4 big2].
+  Proof. vm_compute. repeat split; reflexivity. Qed.
+
+  (** tests/blob_nuke_gc_stats.rs: the file is pruned, its statistics entry stays *)
+  Definition k2 := blob_drop_tables [0] (fst c1).
+  Example ex_nuke_gc_stats :
+    b_tables k2 = [] /\ b_blobs k2 = [] /\ b_gc k2 = [(0, G 1 8 8)].
+  Proof. vm_compute. repeat split; reflexivity. Qed.
+  Definition k1m := blob_flush 4 1000 0 0 (one 0) [V kbig 1 big; V kbig 0 big] bv_empty.
+  Example ex_nuke_gc_stats_multi :
+    let v := blob_drop_tables [0] (fst k1m) in
+    b_tables v = [] /\ b_blobs v = [] /\ b_gc v = [(0, G 2 16 16)].
+  Proof. vm_compute. repeat split; reflexivity. Qed.
+
+  (** tests/blob_flush_gc_stats.rs: the expired first version never reaches a blob file *)
+  Example ex_flush_gc_stats :
+    let r := blob_flush 4 1000 1000 0 (one 0) [V kbig 1 big2; V kbig 0 big; V ksmol 0 [1;2]] bv_empty in
+    map bf_uncomp (b_blobs (fst r)) = [7] /\ b_gc (fst r) = [] /\
+    lenN (concat (map snd (b_tables (fst r)))) = 2.
+  Proof. vm_compute. repeat split; reflexivity. Qed.
+
+  (** src/compaction/worker.rs: blob_file_picking_simple (threshold 1, staleness 0.01,
+      age cutoff 1.0) *)
+  Definition p1 := blob_flush 1 1000 1000 0 (one 0) [V ka 0 [97]; V kb 0 [98]; V kc 0 [99]] bv_empty.
+  Definition p2 := blob_merge_standard 1000 true no_filter [0] (split_cuts [1;2;3] [1%nat;1%nat]) (fst p1).
+  Definition p3 := blob_drop_tables [1] p2.
+  Definition p4 := blob_merge_standard 1000 true no_filter [2] (one 4) p3.
+  Definition p5 := blob_merge_relocating 1000 true no_filter [3;4]
+                     (pick_rewrite 1 100 1 1 [3;4] p4) 1000 (snd p1) (one 5) p4.
+  Example ex_blob_file_picking_simple :
+    map fst (b_tables p2) = [1;2;3] /\ length (b_blobs p2) = 1%nat /\
+    map fst (b_tables p3) = [2;3] /\ length (b_blobs p3) = 1%nat /\ b_gc p3 = [(0, G 1 1 1)] /\
+    pick_rewrite 1 100 1 1 [2] p3 = [] /\
+    length (b_tables p4) = 2%nat /\ length (b_blobs p4) = 1%nat /\ b_gc p4 = [(0, G 1 1 1)] /\
+    pick_rewrite 1 100 1 1 [3;4] p4 = [0] /\
+    length (b_tables (fst p5)) = 1%nat /\ map bf_id (b_blobs (fst p5)) = [1] /\ b_gc (fst p5) = [] /\
+    check_binv p3 = true /\ check_binv p4 = true /\ check_binv (fst p5) = true.
+  Proof. vm_compute. repeat split; reflexivity. Qed.
+
+  (** src/blob_tree/gc.rs: frag_map_merge_into *)
+  Example ex_frag_map_merge_into :
+    gc_merge [(0, G 3 3000 1500); (3, G 4 4000 2000)] [(0, G 1 1000 500); (1, G 2 2000 1000)]
+    = [(0, G 4 4000 2000); (1, G 2 2000 1000); (3, G 4 4000 2000)].
+  Proof. vm_compute. reflexivity. Qed.
+
+  (** src/blob_tree/gc.rs: compaction_stream_gc_count_drops *)
+  Example ex_gc_count_drops :
+    let '(out, log) := run_stream 1000 false no_filter [V ka 1 [97;98;99]; mk_ind ka 0 0 0 500 1000] in
+    out = [V ka 1 [97;98;99]] /\ gc_of_log log = [(0, G 1 1000 500)].
+  Proof. vm_compute. split; reflexivity. Qed.
+End BlobEx.
